@@ -4,7 +4,7 @@
      ods_rows           sheet selection, table:number-rows-repeated, table:number-columns-repeated,
                         text_of (text:s with text:c, text:tab, text:line-break, nested elements, tails), paragraphs joined by LF
    Executable definitions only. *)
-From CP Require Import Model.Base Model.Lex Model.FieldTypes.
+From CP Require Import Model.Base Model.Lex Model.FieldTypes Generated.Consts.
 Local Open Scope Z_scope.
 
 (* what is inside a text:p (element text and tails are IText nodes) *)
@@ -19,13 +19,13 @@ Record orow := { or_rep : option text; or_cells : list ocell }.
 Definition otable := list orow.
 Inductive container := CNotZip | CNoContent | CBadXml | CDoc (tables : list otable).
 
-(* repeated_count: int(attribute or "1"), at least 1 *)
+(* repeated_count: int(attribute or "1"), at least 1 and at most _MAX_ODS_REPEATED_COUNT (read from the source) *)
 Inductive cres := CountOk (n : nat) | CountBad | CountOut.
 Definition repeated_count (a : option text) : cres :=
   match a with
   | None => CountOk 1
   | Some t => match py_int t with
-              | IOk z => if z <? 1 then CountBad else CountOk (Z.to_nat z)
+              | IOk z => if z <? 1 then CountBad else if MAX_ODS_REPEATED_COUNT <? z then CountBad else CountOk (Z.to_nat z)
               | IBad => CountBad
               | IOut => CountOut
               end
